@@ -260,6 +260,39 @@ pub open spec fn tok_is(i: AssetInfo, who: Seq<char>) -> bool { i matches AssetI
         /*[C14,C17 exec.update-decimals.only-factory]*/ msg is UpdateNativeTokenDecimals ==> r is Ok ==> old(deps.storage).config is Some && info.sender.0@ == old(deps.storage).config->Some_0.halo_factory.0@,
         /*[C14 exec.update-decimals.reject-no-write]*/ msg is UpdateNativeTokenDecimals ==> r is Err ==> *final(deps.storage) == *old(deps.storage),
         /*[C14,C07 exec.receive.no-write]*/ msg is Receive ==> *final(deps.storage) == *old(deps.storage),
+        // the dispatcher hands every arm its own arguments: what the handlers guarantee is restated at the entry point
+        /*[C09,C05,C03 exec.provide.native-funds]*/ msg matches ExecuteMsg::ProvideLiquidity { assets, slippage_tolerance, receiver } ==> r is Ok ==> provide_funds_ok(info.funds@, assets),
+        /*[C05,C03,C07 exec.provide.mints-and-pulls]*/ msg matches ExecuteMsg::ProvideLiquidity { assets, slippage_tolerance, receiver } ==> r is Ok ==>
+            provide_mints_ok(*old(deps.storage), deps.querier.world(), env.contract.address.0@, info.sender.0@, receiver, assets, r->Ok_0.msgs()),
+        /*[C15 exec.provide.slippage-applied]*/ msg matches ExecuteMsg::ProvideLiquidity { assets, slippage_tolerance, receiver } ==> r is Ok ==>
+            provide_slip_ok(*old(deps.storage), deps.querier.world(), env.contract.address.0@, assets, slippage_tolerance),
+        /*[C04,C14,C03,C07 exec.hook.withdraw.only-lp-token]*/ msg matches ExecuteMsg::Receive(m) ==> decode::<Cw20HookMsg>(m.msg) matches Ok(Cw20HookMsg::WithdrawLiquidity {}) ==> r is Ok ==>
+            old(deps.storage).pair_info is Some && canon_of(info.sender.0@) == old(deps.storage).pair_info->Some_0.liquidity_token.0@,
+        /*[C04,C03,C07 exec.hook.withdraw.pays]*/ msg matches ExecuteMsg::Receive(m) ==> decode::<Cw20HookMsg>(m.msg) matches Ok(Cw20HookMsg::WithdrawLiquidity {}) ==> r is Ok ==>
+            old(deps.storage).pair_info is Some && ({
+                let pi = old(deps.storage).pair_info->Some_0;
+                exists|i0: AssetInfo, i1: AssetInfo, lp: Seq<char>| #![trigger raw_of(i0, pi.asset_infos[0]), raw_of(i1, pi.asset_infos[1]), canon_of(lp)]
+                    raw_of(i0, pi.asset_infos[0]) && raw_of(i1, pi.asset_infos[1])
+                    && withdraw_pays(deps.querier.world(), env.contract.address.0@, pi, i0, i1, lp, m.sender@, m.amount, r->Ok_0.msgs()) }),
+        /*[C02,C01,C03,C14,C12 exec.hook.swap.amount-and-asset]*/ msg matches ExecuteMsg::Receive(m) ==> (decode::<Cw20HookMsg>(m.msg) matches Ok(Cw20HookMsg::Swap { offer_asset, belief_price, max_spread, to }) ==> r is Ok ==>
+            offer_asset.amount == m.amount && (offer_asset.info matches AssetInfo::Token { contract_addr } && contract_addr@ == info.sender.0@)),
+        /*[C02,C01,C03,C07,C12 exec.hook.swap.settles]*/ msg matches ExecuteMsg::Receive(m) ==> (decode::<Cw20HookMsg>(m.msg) matches Ok(Cw20HookMsg::Swap { offer_asset, belief_price, max_spread, to }) ==> r is Ok ==>
+            old(deps.storage).pair_info is Some && old(deps.storage).commission is Some && ({
+                let pi = old(deps.storage).pair_info->Some_0;
+                exists|i0: AssetInfo, i1: AssetInfo| #![trigger raw_of(i0, pi.asset_infos[0]), raw_of(i1, pi.asset_infos[1])] raw_of(i0, pi.asset_infos[0]) && raw_of(i1, pi.asset_infos[1])
+                    && swap_settles(deps.querier.world(), env.contract.address.0@, i0, i1, old(deps.storage).commission->Some_0.0.v(), offer_asset,
+                        (if to is Some { to->Some_0@ } else { m.sender@ }), r->Ok_0.msgs()) })),
+        /*[C10 exec.hook.swap.guard-applied]*/ msg matches ExecuteMsg::Receive(m) ==> (decode::<Cw20HookMsg>(m.msg) matches Ok(Cw20HookMsg::Swap { offer_asset, belief_price, max_spread, to }) ==> r is Ok ==>
+            old(deps.storage).pair_info is Some && old(deps.storage).commission is Some && ({
+                let pi = old(deps.storage).pair_info->Some_0;
+                exists|i0: AssetInfo, i1: AssetInfo| #![trigger raw_of(i0, pi.asset_infos[0]), raw_of(i1, pi.asset_infos[1])] raw_of(i0, pi.asset_infos[0]) && raw_of(i1, pi.asset_infos[1])
+                    && swap_guarded(deps.querier.world(), env.contract.address.0@, i0, i1, pi.asset_decimals, old(deps.storage).commission->Some_0.0.v(), offer_asset, belief_price, max_spread) })),
+        /*[C17 exec.update-decimals.applies]*/ msg matches ExecuteMsg::UpdateNativeTokenDecimals { denom, asset_decimals } ==> r is Ok ==> old(deps.storage).pair_info is Some && final(deps.storage).pair_info is Some && ({
+            let o = old(deps.storage).pair_info->Some_0; let n = final(deps.storage).pair_info->Some_0;
+            n.asset_infos == o.asset_infos && n.contract_addr == o.contract_addr && n.liquidity_token == o.liquidity_token
+            && n.requirements == o.requirements && n.commission_rate == o.commission_rate
+            && ((raw_is_native(o.asset_infos[0], denom@) || raw_is_native(o.asset_infos[1], denom@)) ==> n.asset_decimals == asset_decimals)
+            && (!(raw_is_native(o.asset_infos[0], denom@) || raw_is_native(o.asset_infos[1], denom@)) ==> n.asset_decimals == o.asset_decimals) }),
 //%end
 
 // ---- decimals update pushed by the factory (C14, C17) ----
